@@ -52,6 +52,9 @@ func (c *Ctx) Choose(kind, label string, n int, costs []int) int {
 	return ch
 }
 
+// Prefix returns the forced choices of this execution (enough to replay it: later points default to 0).
+func (c *Ctx) Prefix() []int { return append([]int(nil), c.prefix...) }
+
 // Choices returns the choice vector of the execution so far.
 func (c *Ctx) Choices() []int {
 	out := make([]int, len(c.Points))
